@@ -182,6 +182,15 @@ func (e *Env) evalIter(n *EIter) Val {
 	if n.Loop != 0 {
 		li = e.loopsByOrd[n.Loop]
 	}
+	if li != nil && li.riCell == nil && e.frame != nil {
+		// range over a map: the number of keys produced by completed iterations
+		if rg := loopSeenRange(li); rg != nil {
+			if cv, ok := e.st.heaps["cnt:"+seenKey(e.frame, rg)]; ok {
+				return Val{T: tInt, Term: cv}
+			}
+			return Val{T: tInt, Term: "0"}
+		}
+	}
 	if li == nil || li.riCell == nil || e.frame == nil {
 		e.fail("#i used outside a range-over-slice loop")
 	}
@@ -643,6 +652,20 @@ func (e *Env) evalCall(n *ECall) Val {
 			return b(fmt.Sprintf("(%s %s)", okF, v.Term))
 		}
 		return Val{T: t, Term: fmt.Sprintf("(%s %s)", valF, v.Term)}
+	case "seen":
+		// seen(k): key k has been produced by the enclosing range-over-map loop in an iteration that is complete
+		if e.loop == nil || e.frame == nil {
+			e.fail("seen() outside a loop invariant")
+		}
+		rg := loopSeenRange(e.loop)
+		if rg == nil {
+			e.fail("seen() in a loop that does not range over a map")
+		}
+		sv, ok := e.st.heaps[seenKey(e.frame, rg)]
+		if !ok {
+			e.fail("seen(): the map range has not started")
+		}
+		return b(fmt.Sprintf("(select %s %s)", sv, arg(0).Term))
 	case "implies":
 		return b(implies(arg(0).Term, arg(1).Term))
 	case "smt":
